@@ -559,7 +559,7 @@ def flag_field_indices():
 _HELPER_CACHE = {}
 
 
-def transform_paths(mir, fn_pattern, idx_flip, idx_swap, source_call=None, helpers=(), _depth=0):
+def transform_paths(mir, fn_pattern, idx_flip, idx_swap, source_call=None, helpers=(), _depth=0, param_flags=None):
 	"""For every (flip, swap) assignment: the ordered list of TransformCoord calls on the path the function takes.
 	Returns {(flip, swap): [("flip"|"swap", receiver type), ...]} plus notes.
 	helpers: name prefixes of crate-local functions whose own call sequence is spliced in where they are called (so that
@@ -588,6 +588,8 @@ def transform_paths(mir, fn_pattern, idx_flip, idx_swap, source_call=None, helpe
 	for place, name in debug.items():
 		if re.fullmatch(r"_\d+", place):
 			flag_of[place] = name
+	for i, name in (param_flags or {}).items():
+		flag_of[f"_{i + 1}"] = name
 	# boolean combinations of flags (the optimiser turns `flip || swap` into `Ne(flip, swap)` + a second test)
 	exprs = {}
 	for lines in blocks.values():
@@ -668,13 +670,20 @@ def transform_paths(mir, fn_pattern, idx_flip, idx_swap, source_call=None, helpe
 						seq = seq + (("map_coord", "closure"),)
 					elif helpers and _depth < 3 and "{closure" not in callee and not callee.strip().startswith("<"):
 						# a function of this crate (its body is in the dump under exactly this name): splice in its own sequence
-						key = (callee.strip(), idx_flip, idx_swap)
+						# flags handed to the helper as arguments keep their identity inside it (argument i = parameter _{i+1})
+						pf = tuple(sorted((i, flag_of[a[0]]) for i, a in enumerate(arg_locals) if len(a) == 1 and a[0] in flag_of))
+						key = (callee.strip(), idx_flip, idx_swap, pf)
 						if key not in _HELPER_CACHE:
 							pat = r"(?<=fn )" + re.escape(callee.strip()) + r"\("
+							if function_body(mir, pat)[1] is None and re.fullmatch(r"[A-Za-z_]\w*::[a-z_]\w*", callee.strip()):
+								# an inherent method: `Type::method` at the call site, `module::<impl at ..>::method` in the MIR header
+								alt = r"(?<=fn )[\w:]*<impl at [^>]*>::" + re.escape(callee.strip().split("::")[-1]) + r"\("
+								if len(re.findall(r"^fn [^\n]*" + alt, mir, re.M)) == 1:
+									pat = alt
 							if function_body(mir, pat)[1] is None:
 								_HELPER_CACHE[key] = None  # not a function of this crate: opaque, as before
 							else:
-								_HELPER_CACHE[key] = transform_paths(mir, pat, idx_flip, idx_swap, None, helpers, _depth + 1)[0]
+								_HELPER_CACHE[key] = transform_paths(mir, pat, idx_flip, idx_swap, None, helpers, _depth + 1, param_flags=dict(pf))[0]
 						sub = _HELPER_CACHE[key]
 						if sub is not None:
 							seq = seq + tuple(tuple(t) for t in sub[(flip, swap, has_req)])
